@@ -40,12 +40,38 @@ Proof. exact ag_coherent. Qed.
 Print Assumptions allgather_getall_eq_map_getitem.
 
 (* the bulk accessor of the pseudo-label wrapper, WHEN it answers (top-k sampling raises
-   NotImplementedError), is the per-sample list — thresholded tables included *)
+   NotImplementedError), is the per-sample list — thresholded tables included, PROVIDED the
+   bulk path takes the same "confidence > threshold" decisions as the per-sample path (the
+   two lists of decisions are recorded separately on the two real code paths) *)
 Theorem pseudo_label_getall_eq_map_getitem : forall p n l,
-  match p with PLHard pl => length pl = n | PLSoft am => length am = n | _ => True end ->
+  match p with
+  | PLHard pl => length pl = n
+  | PLSoft am => length am = n
+  | PLThr _ _ dec_item dec_bulk => dec_item = dec_bulk
+  | _ => True
+  end ->
   pl_getall p n = Some l -> l = map (pl_getitem p) (seq 0 n).
 Proof. exact pl_coherent. Qed.
 Print Assumptions pseudo_label_getall_eq_map_getitem.
+
+(* ... and ONLY then: one row on which the two paths decide differently (a confidence that
+   equals the threshold under `>` on one path and `>=` / `not <` on the other) makes the two
+   accessors disagree *)
+Theorem pseudo_label_threshold_coherent_iff_same_decisions : forall am ref di db n,
+  length am = n -> length di = n -> length db = n -> (forall y, In y am -> y <> -1) ->
+  (pl_getall (PLThr am ref di db) n = Some (map (pl_getitem (PLThr am ref di db)) (seq 0 n)) <-> di = db).
+Proof. exact pl_thr_coherent_iff. Qed.
+Print Assumptions pseudo_label_threshold_coherent_iff_same_decisions.
+
+(* under the contract (both paths decide as the rule "softmax(row).max() > threshold" does) a
+   thresholded label is the row argmax where the rule holds and -1 elsewhere, on both accessors *)
+Theorem pseudo_label_threshold_rule : forall am ref di db C labels idx,
+  contractb (WPseudo (PLThr am ref di db)) C labels = true ->
+  pl_getitem (PLThr am ref di db) idx = (if nth idx ref false then nth idx am 0 else -1) /\
+  (forall l, pl_getall (PLThr am ref di db) (length labels) = Some l ->
+             nth idx l (pl_getitem (PLThr am ref di db) idx) = pl_getitem (PLThr am ref di db) idx).
+Proof. exact pl_thr_rule. Qed.
+Print Assumptions pseudo_label_threshold_rule.
 
 Theorem random_class_getall_eq_map_getitem : forall nc (labels : list Z) m C,
   contractb (WRandomClass nc m) C labels = true ->
@@ -66,7 +92,7 @@ Theorem labels_in_announced_range : forall w C labels,
 Proof. exact labels_in_range_all. Qed.
 Print Assumptions labels_in_announced_range.
 
-(* class groups, group size dividing C: labels stay in [0, C) *)
+(* class groups, group size dividing C: labels stay in [0, C) -- also for unlabeled (-1) inputs *)
 Theorem class_groups_labels_in_range : forall C p labels idx,
   contractb (WClassGroups p) C labels = true -> (idx < length labels)%nat ->
   0 <= cg_getitem C p labels idx < C.
@@ -139,6 +165,15 @@ Theorem encoding_matches_bulk_label : forall e C labels idx,
 Proof. exact encoding_matches_bulk_lem. Qed.
 Print Assumptions encoding_matches_bulk_label.
 
+(* unlabeled samples: both re-encodings keep the marker (a vector of -1 of the announced length),
+   so "per-sample says unlabeled" exactly where the bulk accessor says -1 *)
+Theorem unlabeled_stays_marked : forall e C labels idx,
+  nth idx labels 0 = -1 ->
+  match e with ESmooth sm => ~ (sm == 0)%Q | EOneHot => True end ->
+  e_getitem e C labels idx = EVec (repeat (-1)%Q (Z.to_nat C)).
+Proof. exact unlabeled_stays_marked_lem. Qed.
+Print Assumptions unlabeled_stays_marked.
+
 (* ---- structural ---- *)
 Theorem mapping_function_of_args_and_draws : forall w1 w2 C labels, w1 = w2 ->
   w_items w1 C labels = w_items w2 C labels /\ w_getall w1 C labels = w_getall w2 C labels
@@ -146,9 +181,22 @@ Theorem mapping_function_of_args_and_draws : forall w1 w2 C labels, w1 = w2 ->
 Proof. exact mapping_function. Qed.
 Print Assumptions mapping_function_of_args_and_draws.
 
+(* wrapped data other than the label is untouched: a wrapper (any kind, any parameters, any
+   draws) answers every item other than the label exactly as the wrapped dataset does; the label
+   is the wrapper's mapping.  (That the real classes override the class accessors only is the
+   harness' structural check, see TRUSTED.) *)
+Theorem other_items_untouched : forall w C labels ds name idx,
+  wrap w C labels ds (IOther name) idx = ds (IOther name) idx.
+Proof. exact other_items_untouched_lem. Qed.
+Print Assumptions other_items_untouched.
+
 (* ---- non-vacuity: every contract is satisfiable (one witness per wrapper / mode) ---- *)
 Example nv_class_groups :
-  contractb (WClassGroups {| cg_cpg := 2; cg_shuffle := true; cg_draw := [1; 0; 0; 1] |}) 4 [0; 3; 3; 1] = true.
+  contractb (WClassGroups {| cg_cpg := 2; cg_shuffle := true; cg_draw := [1; 0; 0; 1] |}) 4 [0; 3; 3; 1; -1] = true.
+Proof. reflexivity. Qed.
+(* an unlabeled sample (-1) indexes the group table from the end: it gets a class of the last group *)
+Example nv_class_groups_unlabeled :
+  map (cg_getitem 4 {| cg_cpg := 2; cg_shuffle := false; cg_draw := [] |} [-1; 0; -1]) (seq 0 3) = [2; 0; 3].
 Proof. reflexivity. Qed.
 Example nv_superclass :
   contractb (WSuperclass {| sc_cps := 2; sc_splits := 2; sc_shuffle := true; sc_perm := [2; 0; 1];
@@ -164,8 +212,14 @@ Example nv_pseudo_hard : contractb (WPseudo (PLHard [1; -1])) 2 [0; 0] = true.
 Proof. reflexivity. Qed.
 Example nv_pseudo_soft : contractb (WPseudo (PLSoft [1; 0])) 2 [0; 0] = true.
 Proof. reflexivity. Qed.
-Example nv_pseudo_thr : contractb (WPseudo (PLThr [1; 0] [true; false])) 2 [0; 0] = true.
+Example nv_pseudo_thr :
+  contractb (WPseudo (PLThr [1; 0] [true; false] [true; false] [true; false])) 2 [0; 0] = true.
 Proof. reflexivity. Qed.
+(* a tie decided differently by the two paths (second row): the accessors disagree *)
+Example nv_pseudo_thr_tie :
+  pl_getall (PLThr [1; 0] [true; false] [true; false] [true; true]) 2 = Some [1; 0] /\
+  map (pl_getitem (PLThr [1; 0] [true; false] [true; false] [true; true])) (seq 0 2) = [1; -1].
+Proof. split; reflexivity. Qed.
 Example nv_pseudo_topk : contractb (WPseudo (PLTopk [[2; 0]; [1; 2]] [1; 0])) 3 [0; 0] = true.
 Proof. reflexivity. Qed.
 Example nv_random : contractb (WRandomClass 3 (RCRandom [2; 0])) 5 [0; 0] = true.
